@@ -22,7 +22,7 @@ import (
 )
 
 type modeEv struct {
-	Ev    string `json:"ev"` // reach | req-new | req-old | open
+	Ev    string `json:"ev"`              // reach | req-new | req-old | open
 	Reach int    `json:"reach,omitempty"` // 0 unknown 1 public 2 private
 	Old   int    `json:"old,omitempty"`   // which held stream
 	Reg   bool   `json:"reg,omitempty"`   // open: the stream's connection is listed by the network
